@@ -7,6 +7,7 @@ CONSTANTS
   MaxLatch = 0
   FileSteps = TRUE
   QKinds = {}
+  Fix = {}
   KKOps = {"U", "T"}
 VIEW view
 INVARIANTS TypeOK FinishedOnlyAfter NoLostUpdate TagAtomic
